@@ -485,3 +485,123 @@ class HandleGen(object):
         drop = set(self.tags)
         return "\n".join(l for i, l in enumerate(self.s.lines, 1)
                          if i not in drop) + "\n"
+
+
+class ResolveGen(object):
+    """One unknown reflect parameter handle solved more than once: by two
+    vnacal_new_t of the same vnacal_t (and by re-solving the first one) on two
+    frequency grids that do not overlap, with the same or a different number
+    of points.  After every solve vnacal_get_parameter_value must return what
+    that solve found on that solve's grid (consistent data: the truth) and must
+    refuse the frequencies of the other grid."""
+
+    def __init__(self, rng):
+        self.rng = rng
+        self.s = Script()
+        self.checks = []      # dict(solve=, line=, truth=[...], kappa=, what=)
+        self.outside = []     # dict(solve=, line=, what=): every value must fail
+        self.shape = None
+
+    def scenario(self, F, lo, hi):
+        r = self.rng
+        for _ in range(12):
+            ctype = str(r.choice(["T8", "U8", "TE10", "UE10", "UE14", "E12",
+                                  "T16", "U16"]))
+            p = int(r.choice([1, 1, 2]))
+            if ctype in ("T16", "U16"):
+                p = 1
+            sc = calgen.Scenario(ctype, p, p, F, r, fmin=lo, fmax=hi)
+            sc.sufficient_recipe(extras=0)
+            sc.choose_entries()
+            ok, kappa = sc.well_determined(1e3)
+            if ok and len(sc.stds) <= 16:
+                return sc, kappa
+        return None, None
+
+    def unknown_stds(self, sc, var, base):
+        """two measurements of the same unknown reflect: over-determined"""
+        r = self.rng
+        F = sc.F
+        g = base + complex(r.standard_normal(), r.standard_normal()) * 0.05
+        slope = complex(r.standard_normal(), r.standard_normal()) * 0.03
+        truth = np.array([g + slope * i for i in range(F)], dtype=complex)
+        out = []
+        for _ in range(2):
+            prm = calgen.Param("vector", truth)
+            prm.var = var
+            st = sc.add_reflect([int(r.integers(1, sc.p + 1))], [prm])
+            st.entry, st.form = "single_reflect", sc.form
+            st.full_rows = st.full_cols = True
+            st.use_null_map = False
+            out.append(st)
+        return truth, g
+
+    def emit_vn(self, name, sc, idx0):
+        s = self.s
+        s.op("%s=vnacal_new_alloc $vc %s %d %d %d" % (name, sc.ctype, sc.r,
+                                                      sc.c, sc.F))
+        s.rvec("freq", sc.freqs)
+        s.op("vnacal_new_set_frequency_vector $%s @freq" % name)
+        s.op("vnacal_new_set_p_tolerance $%s %s" % (name, hx(1e-13)))
+        s.op("vnacal_new_set_et_tolerance $%s %s" % (name, hx(1e-13)))
+        uid = [idx0 * 1000]
+        order = self.rng.permutation(len(sc.stds))
+        for k, i in enumerate(order):
+            sc.emit_std(s, sc.stds[int(i)], idx0 * 100 + k, vn=name, uid=uid)
+
+    def query(self, solve_line, grid_name, truth, kappa, what):
+        ln = self.s.op("vnacal_get_parameter_values $vc $uu @%s" % grid_name)
+        if truth is None:
+            self.outside.append(dict(solve=solve_line, line=ln, what=what))
+        else:
+            self.checks.append(dict(solve=solve_line, line=ln, truth=truth,
+                                    kappa=kappa, what=what))
+
+    def generate(self):
+        r, s = self.rng, self.s
+        F1 = int(r.integers(2, 6))
+        same = r.random() < 0.7
+        F2 = F1 if same else int(r.choice([f for f in range(1, 7) if f != F1]))
+        bands = [(1.0e9, 2.5e9), (6.0e9, 1.0e10)]
+        if r.random() < 0.5:
+            bands.reverse()
+        sc1, k1 = self.scenario(F1, *bands[0])
+        sc2, k2 = self.scenario(F2, *bands[1])
+        if sc1 is None or sc2 is None:
+            return None
+        variant = str(r.choice(["second_new", "free_first", "resolve_first"]))
+        self.shape = (variant, "same_count" if same else "other_count",
+                      sc1.ctype, sc2.ctype)
+        s.op("vc=vnacal_create")
+        base = complex(r.standard_normal(), r.standard_normal()) * 0.4
+        guess = base + complex(r.standard_normal(), r.standard_normal()) * 0.03
+        s.op("pg=vnacal_make_scalar_parameter $vc %s" % cx(guess))
+        s.op("uu=vnacal_make_unknown_parameter $vc $pg")
+        t1, _ = self.unknown_stds(sc1, "$uu", base)
+        t2, _ = self.unknown_stds(sc2, "$uu", base)
+        s.rvec("grid1", sc1.freqs)
+        s.rvec("grid2", sc2.freqs)
+        # unsolved: must fail
+        self.query(None, "grid1", None, k1, "before any solve")
+        self.emit_vn("vn1", sc1, 1)
+        l1 = s.op("vnacal_new_solve $vn1")
+        self.query(l1, "grid1", t1, k1, "first solve, its own grid")
+        self.query(l1, "grid2", None, k1, "first solve, other grid")
+        if variant == "free_first":
+            s.op("vnacal_new_free $vn1")
+        self.emit_vn("vn2", sc2, 2)
+        l2 = s.op("vnacal_new_solve $vn2")
+        self.query(l2, "grid2", t2, k2, "second solve (%s), its own grid" % (
+            "same point count" if same else "different point count"))
+        self.query(l2, "grid1", None, k2, "second solve, first grid")
+        if variant == "resolve_first":
+            l3 = s.op("vnacal_new_solve $vn1")
+            self.query(l3, "grid1", t1, k1, "first vnacal_new_t solved again, "
+                       "its own grid")
+            self.query(l3, "grid2", None, k1, "first vnacal_new_t solved "
+                       "again, other grid")
+            l4 = s.op("vnacal_new_solve $vn2")
+            self.query(l4, "grid2", t2, k2, "second vnacal_new_t solved again")
+        s.op("ci=vnacal_add_calibration $vc \"two\" $vn2")
+        s.op("dump_vnacal $vc")
+        return s.text()
